@@ -69,7 +69,22 @@ type Options struct {
 	PerFile int
 	Compile bool // also judge gofmt and go build of every output
 	Family  string
-	// SetupExtra returns extra text for the setup file header (imports are derived automatically).
+	// Local is the declaration prelude pasted into the untagged sibling file
+	// (default: the type alphabet universe.LocalSrc); Ext maps the name of each
+	// imported package of the scratch module to its source (default: ext).
+	Local string
+	Ext   map[string]string
+	// TypeNames are further names the projector treats as types (conversions).
+	TypeNames []string
+}
+
+func (o *Options) defaults() {
+	if o.Local == "" {
+		o.Local = universe.LocalSrc
+	}
+	if o.Ext == nil {
+		o.Ext = map[string]string{"ext": universe.ExtSrc}
+	}
 }
 
 // Stats of a run.
@@ -95,17 +110,52 @@ type pack struct {
 	res   *core.RunResult
 }
 
-func needsExt(texts ...string) bool {
+var reIdentBefore = regexp.MustCompile(`[A-Za-z0-9_]$`)
+
+// usesPkg reports whether any text refers to package name (as "name.").
+func usesPkg(name string, texts ...string) bool {
 	for _, t := range texts {
-		if strings.Contains(t, "ext.") {
-			return true
+		for i := 0; ; {
+			j := strings.Index(t[i:], name+".")
+			if j < 0 {
+				break
+			}
+			if i+j == 0 || !reIdentBefore.MatchString(t[:i+j]) {
+				return true
+			}
+			i += j + 1
 		}
 	}
 	return false
 }
 
+// importBlock imports every package of opt.Ext that code refers to; packages
+// referred to by notation comments only are imported blank (the idiom the
+// tool documents for converters and hooks of other packages).
+func importBlock(opt *Options, comments string, texts ...string) string {
+	var names []string
+	for n := range opt.Ext {
+		if usesPkg(n, texts...) || usesPkg(n, comments) {
+			names = append(names, n)
+		}
+	}
+	sort.Strings(names)
+	var sb strings.Builder
+	for _, n := range names {
+		if usesPkg(n, texts...) {
+			sb.WriteString("import \"" + modPath + "/" + n + "\"\n")
+		} else {
+			sb.WriteString("import _ \"" + modPath + "/" + n + "\"\n")
+		}
+	}
+	if len(names) > 0 {
+		sb.WriteString("\n")
+	}
+	return sb.String()
+}
+
 // render writes one package directory for the given cases.
-func render(dir, pkg string, cases []*Case) (files map[string]string, methodLine map[string]int, noteLines map[string][]int) {
+func render(opt *Options, dir, pkg string, cases []*Case) (files map[string]string, methodLine map[string]int, noteLines map[string][]int) {
 	var setup, sib strings.Builder
 	var body strings.Builder
 	var sdecl strings.Builder
@@ -115,19 +165,17 @@ func render(dir, pkg string, cases []*Case) (files map[string]string, methodLine
 		sdecl.WriteString(c.SetupDecl)
 	}
 	setup.WriteString("//go:build convergen\n\npackage " + pkg + "\n\n")
-	ifaceText := func() string {
-		var b strings.Builder
-		for _, c := range cases {
-			for _, n := range c.Notes {
-				b.WriteString(n)
-			}
-			b.WriteString(c.Method)
+	var methodText, noteText strings.Builder
+	for _, c := range cases {
+		for _, n := range c.Notes {
+			noteText.WriteString(n + "\n")
 		}
-		return b.String()
-	}()
-	if needsExt(ifaceText, sdecl.String()) {
-		setup.WriteString("import \"" + modPath + "/ext\"\n\n")
+		for _, n := range c.IntfNotes {
+			noteText.WriteString(n + "\n")
+		}
+		methodText.WriteString(c.Method + "\n")
 	}
+	setup.WriteString(importBlock(opt, noteText.String(), methodText.String(), sdecl.String()))
 	setup.WriteString(sdecl.String())
 	methodLine = map[string]int{}
 	noteLines = map[string][]int{}
@@ -154,10 +202,8 @@ func render(dir, pkg string, cases []*Case) (files map[string]string, methodLine
 	setup.WriteString(body.String())
 	var sibHead strings.Builder
 	sibHead.WriteString("package " + pkg + "\n\n")
-	sibText := universe.LocalSrc + "\n" + sib.String()
-	if needsExt(sibText) {
-		sibHead.WriteString("import \"" + modPath + "/ext\"\n\n")
-	}
+	sibText := opt.Local + "\n" + sib.String()
+	sibHead.WriteString(importBlock(opt, "", sibText))
 	files = map[string]string{
 		filepath.Join(dir, "setup.go"): setup.String(),
 		filepath.Join(dir, "cases.go"): sibHead.String() + sibText,
@@ -172,12 +218,15 @@ var reDiag = regexp.MustCompile(`^(?:\./)?([^:\s]+\.go):(\d+):(\d+): (.*)$`)
 // are reported (with a replay file).
 func Run(c *core.Ctx, opt Options, cases []*Case, judge func(*Result) Verdict) Stats {
 	tool := c.EnsureTool()
+	opt.defaults()
 	if opt.PerFile <= 0 {
 		opt.PerFile = 60
 	}
 	root := filepath.Join(c.Scratch, "b1-"+opt.Name)
 	mod := core.NewModule(root, modPath)
-	_ = core.WriteFiles(root, map[string]string{"ext/ext.go": universe.ExtSrc})
+	for n, src := range opt.Ext {
+		_ = core.WriteFiles(root, map[string]string{n + "/" + n + ".go": src})
+	}
 	var packs []*pack
 	var cur *pack
 	n := 0
@@ -203,7 +252,7 @@ func Run(c *core.Ctx, opt Options, cases []*Case, judge func(*Result) Verdict) S
 	nlines := map[string][]int{}
 	allFiles := map[string]string{}
 	for _, p := range packs {
-		files, ml, nl := render(p.dir, "p", p.cases)
+		files, ml, nl := render(&opt, p.dir, "p", p.cases)
 		for k, v := range files {
 			allFiles[k] = v
 		}
@@ -260,7 +309,7 @@ func Run(c *core.Ctx, opt Options, cases []*Case, judge func(*Result) Verdict) S
 	results := map[string]*Result{}
 	core.ParallelFor(len(packs), func(i int) {
 		p := packs[i]
-		rs := observe(root, p, mline, nlines, compileErrs[p.dir], unformatted[p.dir])
+		rs := observe(&opt, root, p, mline, nlines, compileErrs[p.dir], unformatted[p.dir])
 		for _, r := range rs {
 			v := judge(r)
 			mu.Lock()
@@ -292,7 +341,7 @@ func Run(c *core.Ctx, opt Options, cases []*Case, judge func(*Result) Verdict) S
 		mu.Unlock()
 		if r == nil {
 			dir := fmt.Sprintf("iso%05d", i)
-			files, ml, nl := render(dir, "p", []*Case{cs})
+			files, ml, nl := render(&opt, dir, "p", []*Case{cs})
 			_ = core.WriteFiles(root, files)
 			p := &pack{dir: dir, cases: []*Case{cs}}
 			p.res = tool.Run(core.RunOpts{Dir: filepath.Join(root, dir), Args: []string{"setup.go"}})
@@ -309,7 +358,7 @@ func Run(c *core.Ctx, opt Options, cases []*Case, judge func(*Result) Verdict) S
 					unf = true
 				}
 			}
-			r = observe(root, p, ml, nl, cerrs, unf)[0]
+			r = observe(&opt, root, p, ml, nl, cerrs, unf)[0]
 			r.Isolated = true
 			mu.Lock()
 			st.Isolated++
@@ -359,9 +408,12 @@ func firstN(s string, n int) string {
 }
 
 // observe reads the outcome of one pack and produces one Result per case.
-func observe(root string, p *pack, mline map[string]int, nlines map[string][]int, cerrs []string, unformatted bool) []*Result {
+func observe(opt *Options, root string, p *pack, mline map[string]int, nlines map[string][]int, cerrs []string, unformatted bool) []*Result {
 	dir := filepath.Join(root, p.dir)
-	files := map[string]string{"go.mod": "module " + modPath + "\n\ngo 1.19\n", "ext/ext.go": universe.ExtSrc}
+	files := map[string]string{"go.mod": "module " + modPath + "\n\ngo 1.19\n"}
+	for n, src := range opt.Ext {
+		files[n+"/"+n+".go"] = src
+	}
 	for _, fn := range []string{"setup.go", "cases.go"} {
 		b, _ := os.ReadFile(filepath.Join(dir, fn))
 		files[filepath.Join("p", fn)] = string(b)
@@ -373,7 +425,7 @@ func observe(root string, p *pack, mline map[string]int, nlines map[string][]int
 		b, err := os.ReadFile(filepath.Join(dir, "setup.gen.go"))
 		if err == nil {
 			base.Output = string(b)
-			f, perr := project.Parse(b, TypeNames())
+			f, perr := project.Parse(b, append(TypeNames(), opt.TypeNames...))
 			if perr != nil {
 				base.ParseErr = perr.Error()
 			} else {
